@@ -50,6 +50,8 @@ fn items_a() -> Vec<(&'static str, Item)> {
         ),
         s("* = $00f8", Stmt::PcSet(lit("$00f8"))),
         s("* = $2000", Stmt::PcSet(lit("$2000"))),
+        // a reserved area whose position depends on the size of what precedes it
+        s("* = * + 3", Stmt::PcSet(bin(Expr::Pc, "+", num(3)))),
         s(".align 4", Stmt::Align(num(4))),
         s(
             ".text \"ab\"",
@@ -352,6 +354,35 @@ fn family_c(max_segments: usize) -> Vec<Vec<Stmt>> {
     out
 }
 
+/// Family D: promotion ladders. Every pass promotes exactly one more `lda end - k` from zero page to
+/// absolute addressing, which moves `end` by one byte and thereby pushes the next operand over $ff:
+/// a program of chain length n needs about n + 5 passes to settle (the pass count is unbounded in n).
+fn family_d(max_chain: usize) -> Vec<Vec<Stmt>> {
+    let mut out = vec![];
+    for start in [0x40i64, 0x80] {
+        for n in 1..=max_chain {
+            let pad = 0xff - (start + 2 * n as i64);
+            if pad <= 0 {
+                continue;
+            }
+            let mut prog = vec![Stmt::PcSet(hex(start))];
+            for j in 1..n {
+                let k = (n - 1 - j) as i64;
+                prog.push(label(&format!("i{}", j)));
+                prog.push(ins("lda", Form::Plain, bin(id("end"), "-", num(k))));
+            }
+            prog.push(label(&format!("i{}", n)));
+            prog.push(ins("lda", Form::Plain, bin(id("end"), "+", num(1))));
+            prog.push(label("table"));
+            prog.push(byte((0..pad).map(|_| num(0)).collect()));
+            prog.push(label("end"));
+            prog.push(imp("rts"));
+            out.push(prog);
+        }
+    }
+    out
+}
+
 /// All balanced family-A programs of length <= k (shared with C11).
 pub fn family_a_programs(k: usize) -> Vec<Vec<Stmt>> {
     let items = items_a();
@@ -423,9 +454,28 @@ pub fn run(ctx: &Ctx, replay: Option<&Value>) -> i32 {
     let c = family_c(if thorough { 3 } else { 2 });
     ctx.set("family_c_programs", json!(c.len()));
     c.par_iter().for_each(|prog| check_prog(ctx, &isa, "C", prog));
+    // family D
+    let d = family_d(if thorough { 90 } else { 40 });
+    ctx.set("family_d_programs", json!(d.len()));
+    let max_passes = std::sync::atomic::AtomicUsize::new(0);
+    d.par_iter().for_each(|prog| {
+        check_prog(ctx, &isa, "D", prog);
+        // (evidence only: how many passes the longest ladder needed)
+        if let Ok(b) = probe::assemble(&[("main.asm", &program_text(prog))], &Opts::default()) {
+            if b.ok() {
+                max_passes.fetch_max(b.passes, std::sync::atomic::Ordering::Relaxed);
+            } else {
+                // (the property speaks about successful builds only. Chain length 1 is rejected by the
+                // implementation: the same symbols move in two consecutive passes, which its loop takes
+                // for "truly undefined" - see DESIGN.md, observations outside the listed properties)
+                ctx.count("ladders_rejected");
+            }
+        }
+    });
+    ctx.set("family_d_max_passes_needed", json!(max_passes.load(std::sync::atomic::Ordering::Relaxed)));
     ctx.finish(
         "exploration",
-        "A: every statement sequence of length <= k over 27 items (references to two labels in zero-page/absolute/indexed/branch/data positions, label definitions, a dependent constant, pc assignments, .align, text, braces, block start/end references) assembled at $00f8 so that every forward reference is a zero-page/absolute decision; B: 3-level scope shapes x definition mask x use level x 10 path forms x use before/after x instruction/data; C: 1-3 segments x start (3 literals or end of another segment) x pc relocation x cross references. Every *successful* build is certified: label/block symbols = cursor addresses, every statement's bytes = ISA/evaluator result under the implementation's final symbols, no unexplained bytes, segments.x.start/end = ranges, VICE symbols = label values. non-trivial = distinct assembled program containing at least one symbol reference",
+        "A: every statement sequence of length <= k over 28 items (references to two labels in zero-page/absolute/indexed/branch/data positions, label definitions, a dependent constant, pc assignments, .align, text, braces, block start/end references) assembled at $00f8 so that every forward reference is a zero-page/absolute decision; B: 3-level scope shapes x definition mask x use level x 10 path forms x use before/after x instruction/data; C: 1-3 segments x start (3 literals or end of another segment) x pc relocation x cross references; D: promotion ladders of chain length 1..40 (quick) / 1..90 (thorough) from two start addresses, which need chain+5 passes to settle. Every *successful* build is certified: label/block symbols = cursor addresses, every statement's bytes = ISA/evaluator result under the implementation's final symbols, no unexplained bytes, segments.x.start/end = ranges, VICE symbols = label values. non-trivial = distinct assembled program containing at least one symbol reference",
         true,
         &[
             "sequence length bound k (4 quick / 5 thorough), two label names, fixed literal operands",
